@@ -84,7 +84,25 @@ NEEDS4 = {
  'C14r4/A': 'a page selector with a 128-bit integer or a map with integer keys (token parsed through serde\'s buffered Content)',
  'C14r4/B': 'a token longer than 512 bytes with a multi-byte character across byte 16: panic instead of 400',
 }
+NEEDS4B = {
+ 'C02r4/A': 'a trait-based API (#[dropshot::api_description]) whose tag_config declares tags without an explicit allow_other_tags, and an endpoint with an undeclared tag',
+ 'C02r4/B': 'an unpublished endpoint (visible = false) whose Path<..> parameters do not match the variables of its path template: the check is skipped for it',
+ 'C03r4/A': 'a path without percent signs whose last segment is a literal `.` or `..` with no trailing slash (`/files/a/..`): a fast path skips the dot-segment screen',
+ 'C03r4/B': 'a refused path longer than 96 bytes with a multi-byte character across byte 96: the error message slices it and panics',
+ 'C05r4/A': 'the same method on a path (until V) and on the wildcard below it (from V): a request for the path at a version >= V is answered 405 instead of reaching the wildcard endpoint',
+ 'C05r4/B': 'an OPTIONS request against a versioned server: the version policy is not consulted and the first registered OPTIONS endpoint answers at any version',
+ 'C06r4/A': 'two tags that differ only in letter case (`Widgets` / `widgets`): the document is not byte-stable between two generations',
+ 'C06r4/B': 'a channel (#[channel]) marked unpublished or deprecated: the two flags are swapped by the macro',
+ 'C08r4/A': 'a `number` schema whose lower and upper bounds differ in exclusivity: exclusiveMinimum and exclusiveMaximum are crossed',
+ 'C08r4/B': 'a response type whose inline schema is `not: {type: T}`: taken for the void schema, no body schema published',
+ 'C15r4/A': 'a first-page scan parameter whose name has an upper-case letter (`sortBy`): names are lower-cased before the scan type sees them',
+ 'C15r4/B': 'first-page parameters the scan type does not declare that sort before a declared one: only as many entries as declared fields are looked at',
+ 'C20r4/A': 'an API whose only channel endpoints are unpublished: the connection is served without upgrade support',
+ 'C20r4/B': 'a handshake request carrying `Content-Length: 0`: refused although all four handshake elements are present',
+}
 import sys
+WAVE4B = '--wave4b' in sys.argv
+if WAVE4B: sys.argv.append('--wave4'); NEEDS4 = NEEDS4B
 WAVE3 = '--wave3' in sys.argv
 WAVE4 = '--wave4' in sys.argv
 items = NEEDS4.items() if WAVE4 else NEEDS3.items() if WAVE3 else NEEDS.items()
